@@ -14,7 +14,9 @@ EXPLANATION = (
     'name-based call graph with the repo idioms resolved); for every entry point (parse, parsestream, split, format, cli.main) '
     'every call expression of its body other than the consumption of stack.run(...) must not reach REC. R15.3: the one '
     'exception, str(stmt) in split (TokenList.__str__ -> flatten is recursive), is accepted only while split never enables '
-    'grouping and installs no group-building filter, so the statements are flat. Not decided: C-level stack exhaustion, '
+    'grouping and installs no group-building filter, so the statements are flat (moot once flatten is iterative). R15.4: the package '
+    'never changes the recursion limit / thread stack size. R15.5: str()/flatten() of a returned statement reach no recursive function '
+    '(the final tree is deeper than anything a grouping pass walked). Not decided: C-level stack exhaustion, '
     'MemoryError, behaviour at particular recursion limits.')
 
 ENTRY = ['sqlparse.parse', 'sqlparse.parsestream', 'sqlparse.split', 'sqlparse.format', 'sqlparse.cli.main']
